@@ -236,6 +236,44 @@ def r2_2(ctx):
            '%s:%s' % (fast.file, fast.line), 'the terminating RE_OPCODE_MATCH is handled')
 
 
+def r2_3(ctx):
+    """a fiber that moves past a jump instruction leaves its repetition counter
+    reset: the counter belongs to the jump it was spinning in, the next jump must
+    start counting from zero"""
+    prog = ctx.prog
+    f = prog.fn('_yr_re_fiber_sync', 'libyara/re.c')
+    if f is None:
+        ctx.require(ctx.fixture, '_yr_re_fiber_sync not found')
+        return
+    n = 0
+    for ops, nodes, labels in reader_cases(ctx, f):
+        if not any(o and 'REPEAT_ANY' in o for o in ops):
+            continue
+        for x in nodes:
+            if x['k'] == 'bin' and x['op'] == '+=':
+                l = cu.strip_casts(f, f.kid(x, 0))
+                if l is None or l['k'] != 'member' or l['fld'] != 'ip':
+                    continue
+                if cu.const_of(cu.strip_casts(f, f.kid(x, 1))) is None:
+                    continue
+                fib = canon(f, f.kid(l, 0))
+                blk = None
+                for a in f.ancestors(x):
+                    if a['k'] == 'compound':
+                        blk = a
+                        break
+                reset = blk is not None and any(
+                    y['k'] == 'bin' and y['op'] == '=' and canon(f, f.kid(y, 0)) == '%s->rc' % fib and
+                    cu.const_of(cu.strip_casts(f, f.kid(y, 1))) == -1 for y in f.walk(blk))
+                ctx.ob('R2.3', '_yr_re_fiber_sync:%s-leaves-jump#%d:counter-reset' % (fib, n), reset, f.loc(x),
+                       '%s moves past the jump with rc = -1' % fib if reset else
+                       '%s->ip moves past the jump instruction here but %s->rc keeps the number of bytes '
+                       'already skipped: the next jump on that path starts counting from there and its '
+                       'bounds shift' % (fib, fib))
+                n += 1
+    ctx.count('jump_exits', n)
+
+
 def f_kid(f, n, i):
     return f.kid(n, i)
 
@@ -251,3 +289,5 @@ def run(ctx):
     ctx.floor('R2.1', 4)
     r2_2(ctx)
     ctx.floor('R2.2', 9)
+    r2_3(ctx)
+    ctx.floor('R2.3', 2)
